@@ -164,6 +164,29 @@ def socket_level(chk, prefixes, types, depth, nrand, drops=True, faults=True):
         report(chk, v, scripts, prefixes, "random")
 
 
+def budget_scripts(scen0, budgets=(1, 2, 3), backlog=(20, 40)):
+    """C06, second half, under a runtime's cooperative budget (what tokio does): the receiving task gets k transport reads per poll
+    of the task; further reads answer Pending without looking and are woken only after the task has given control back.  One peer
+    has a backlog that a single read brought into the library's buffer (delivering it needs no read), the others have one message
+    each that needs a read.  The application calls recv back to back; a recv that finds a buffered message returns at once, so the
+    task never yields by itself.  The ready peers must still be served within the bound."""
+    out, scen = [], scen0
+    for t in ("PULL", "DEALER", "ROUTER", "XPUB"):
+        for k in budgets:
+            for big in backlog:
+                scen += 1
+                ptype = S.PEER_OF[t][0]
+                ops = [{"op": "attach", "c": c, "ptype": ptype} for c in (1, 2, 3)] + [{"op": "settle"}, {"op": "budget", "k": k}]
+                def m(c, i):
+                    tag = ("b%dc%dm%d" % (scen, c, i)).encode()
+                    return [S.hx(b"\x01" + tag)] if t == "XPUB" else [S.hx(tag)]
+                ops.append({"op": "pburst", "c": 1, "ms": [m(1, i) for i in range(big)]})
+                ops += [{"op": "psend", "c": 2, "m": m(2, 1)}, {"op": "psend", "c": 3, "m": m(3, 1)}]
+                ops += [{"op": "recv"}] * (big + 2) + [{"op": "quiescent"}, {"op": "recv_drop"}, {"op": "budget"}]
+                out.append({"scen": scen, "sock": t, "ops": ops, "tag": "budget/%d/%d" % (k, big), "nojitter": True})
+    return out
+
+
 def burst_scripts(rng, nper, scen0):
     """C06, second half, on real sockets: one peer has a long backlog, the others a few messages, everything readable before the
     receiver starts; half of the scenarios over pipes with hostile-but-legal readiness (late wake-ups of old wakers, self-waking
